@@ -81,7 +81,7 @@ def nested_ordered_inputs(rng, n, costs, deep=False):
     while len(out) < n:
         k = rng.choice([3, 4, 4])
         order = list(range(1, k + 1))
-        ot = gen.caterpillar(5 if deep and rng.random() < 0.4 else 4)
+        ot = gen.caterpillar(5 if deep and rng.random() < 0.1 else 4)
         st = rng.choice([gen.caterpillar(3), gen.bin_shapes(2)[0], gen.balanced(4) if deep else gen.caterpillar(3)])
         leaves = proj.leaves_of(ot)
         syn = [()] * len(ot)
